@@ -81,6 +81,10 @@ func NewLevelListFromDocument(fs storage.FileSystem, dataOwnership kv.DataOwners
 }
 
 func (ll *LevelList) Get(key []byte) (kv.Entry, error) {
+	// Several tables can hold the key (overlapping level 0 tables, older copies
+	// in deeper levels); the entry with the highest sequence number is the
+	// latest write.
+	var newest kv.Entry
 	for t := range ll.AllTablesForKey(key) {
 		v, err := t.Get(key)
 		if err != nil {
@@ -89,9 +93,14 @@ func (ll *LevelList) Get(key []byte) (kv.Entry, error) {
 			}
 			return nil, fmt.Errorf("table %#v, %w", t, err)
 		}
-		return v, nil
+		if newest == nil || v.SeqNum() > newest.SeqNum() {
+			newest = v
+		}
 	}
-	return nil, kv.ErrNotFound
+	if newest == nil {
+		return nil, kv.ErrNotFound
+	}
+	return newest, nil
 }
 
 func (ll *LevelList) ScanPrefix(prefix []byte, errOut *error) iter.Seq[kv.Entry] {
